@@ -426,7 +426,12 @@ def run_case(case, ctx):
             if type(e).__name__ == "PostBroken":
                 raise
             fail("variant with space-group name %r raised %s" % (name, type(e).__name__), "sg_ok")
-    bad_name = ["P 21/c", "F m -3 m", "P -1", "C 2/m", "I 41/a m d"][int(rng.integers(5))]
+    # short symbols, and the full Hermann-Mauguin symbols of the monoclinic groups (unique axis b or c), which BEGIN with "P 1"
+    bad_names = ["P 21/c", "F m -3 m", "P -1", "C 2/m", "I 41/a m d", "P 1 21/c 1", "P 1 2 1", "P 1 m 1", "P 1 21/n 1", "P 1 1 2", "P 1 c 1", "P 1 2/m 1",
+                 "P 1 1 21/b", "P 121/c 1", "P12/m1", "P 1 21 1", "P 1 1 m", "P 1 1 2/b"]
+    bad_name = bad_names[int(rng.integers(len(bad_names)))]
+    if bad_name.replace(" ", "").startswith("P1"):
+        st.count("non_p1_symbols_that_begin_with_P1")
     try:
         load(sg_variant(t1, bad_name))
         fail("a file declaring space group %r was accepted" % bad_name, "sg_rejected")
@@ -550,6 +555,8 @@ def requirements(stats, tier):
         need.append("impropers together with extra torsion columns observed fewer than 3 times")
     if stats.get("structures_with_two_atom_types_of_one_element_and_terms") < 10:
         need.append("structures in which two atom types share an element (and terms exist): %d" % stats.get("structures_with_two_atom_types_of_one_element_and_terms"))
+    if stats.get("non_p1_symbols_that_begin_with_P1") < 40:
+        need.append("non-P1 symbols that begin with 'P 1': %d" % stats.get("non_p1_symbols_that_begin_with_P1"))
     if stats.get("non_p1_rejected") < 50 or stats.get("su_variants") < 50 or stats.get("exponent_variants") < 50:
         need.append("reading variants not exercised")
     if stats.get("ase_agreed") + stats.get("ase_not_consulted_(two sites within its merging distance)") < 0.8 * stats.get("files_written"):
